@@ -82,8 +82,8 @@ func HostileString(r *rand.Rand, maxLen int, allowNUL bool) string {
 	return s
 }
 
-var identFirst = []rune("_*+/?!<>=abcdefghijklmnopqrstuvwxyzABCXYZéλ")
-var identRest = []rune("_*+/?!<>=abcdefghijklmnopqrstuvwxyzABCXYZéλ-0123456789")
+var identFirst = []rune("_*+/?!<>=abcdefghijklmnopqrstuvwxyzABCXYZéλЖ中")
+var identRest = []rune("_*+/?!<>=abcdefghijklmnopqrstuvwxyzABCXYZéλЖ中-0123456789٣５४")
 
 // Ident draws a symbol/keyword name over the scanner's identifier alphabet
 // (never nil/true/false, never starting with '$').
